@@ -394,16 +394,16 @@ func (g gen) timesAround(cutUs int64, exact bool, kind int) []int64 {
 var dbs = []string{"db", "db2", "d"}
 var measNames = []string{"m", "m2", "mm", "m_x", "cpu"}
 
+// path: base names come from a tiny pool, so equal base names (and equal partition tails) occur across
+// hour partitions, measurements and databases; the partition directory carries the never-reused
+// counter (see uniq), so a full path is never reused while base names collide all the time.
 func (g gen) path(db, m string, k int) string {
 	r := g.r
-	switch r.Intn(5) {
-	case 0:
-		return fmt.Sprintf("%s/%s/2024/01/%02d/%s_202401%02d_%d_compacted.parquet", db, m, 1+r.Intn(3), m, k, u())
-	case 1:
-		return fmt.Sprintf("%s/%s/2024/01/%02d/%02d/f%d_%d.PARQUET", db, m, 1+r.Intn(3), r.Intn(24), k, u())
-	default:
-		return fmt.Sprintf("%s/%s/2024/01/%02d/%02d/f%d_%d.parquet", db, m, 1+r.Intn(3), r.Intn(24), k, u())
+	name := vh.Pick(r, []string{"data.parquet", "data.parquet", "f0.parquet", "DATA.PARQUET", m + "_compacted.parquet", "m_compacted.parquet"})
+	if r.Chance(20) {
+		return fmt.Sprintf("%s/%s/2024/01/%02d/d%d/%s", db, m, 1+r.Intn(3), u(), name)
 	}
+	return fmt.Sprintf("%s/%s/2024/01/%02d/%02d_%d/%s", db, m, 1+r.Intn(3), r.Intn(24), u(), name)
 }
 
 func main() {
@@ -426,6 +426,15 @@ func main() {
 		e.opReset()
 		replay.WriteString("reset\n")
 		nontriv := f(&replay)
+		seen := map[string]bool{}
+		for p := range e.store {
+			if b := filepath.Base(p); seen[b] {
+				e.c.Tag("layout:same-basename")
+				break
+			} else {
+				seen[b] = true
+			}
+		}
 		e.c.Tag("case:" + tag)
 		e.c.Case(replay.String(), nontriv)
 	}
@@ -454,9 +463,11 @@ func main() {
 						cutUs++ // smallest µs value >= cutoff
 					}
 					setNow(replay, now)
-					addFile(replay, fmt.Sprintf("db/m/2024/01/01/00/a%d.parquet", u()), g.timesAround(cutUs, phase == 0, kind))
-					addFile(replay, fmt.Sprintf("db/m2/2024/01/01/00/old%d.parquet", u()), []int64{cutUs - day})
-					addFile(replay, fmt.Sprintf("db2/m/2024/01/01/00/old%d.parquet", u()), []int64{cutUs - day})
+					tail := fmt.Sprintf("2024/01/01/00_%d/data.parquet", u())
+					addFile(replay, "db/m/"+tail, g.timesAround(cutUs, phase == 0, kind))
+					addFile(replay, "db/m/"+strings.Replace(tail, "/00_", "/01_", 1), []int64{cutUs + day}) // same base name, next hour, fresh
+					addFile(replay, "db/m2/"+tail, []int64{cutUs - day})
+					addFile(replay, "db2/m/"+tail, []int64{cutUs - day})
 					addFile(replay, "db/m/2024/01/01/00/manifest.json", nil)
 					d := e.opRun("dry", "db", "m", 30, 7, replay, nil)
 					res := e.opRun(mode, "db", "m", 30, 7, replay, &d)
@@ -534,7 +545,7 @@ func main() {
 							pa := strings.Split(a, "/")
 							if strings.HasPrefix(b, pa[0]+"/"+pa[1]+"/") {
 								merged := append(append([]int64{}, e.store[a]...), e.store[b]...)
-								mp := fmt.Sprintf("%s/%s/2024/01/01/%s_20240101_%d_%d_compacted.parquet", pa[0], pa[1], pa[1], s, u())
+								mp := fmt.Sprintf("%s/%s/2024/01/01/c%d_%d/data.parquet", pa[0], pa[1], s, u())
 								addFile(replay, mp, merged)
 								files = append(files, mp)
 								e.opRm(a)
